@@ -4,6 +4,9 @@ import NodisVerif.Proofs.C09Full
 import NodisVerif.Proofs.C09Writers3
 import NodisVerif.Proofs.C09IncrExec
 import NodisVerif.Proofs.GateInv
+import NodisVerif.Proofs.GeoReads
+import NodisVerif.Proofs.C11Pass
+import NodisVerif.Proofs.C11Examples
 /-
   C09 — WATCH is sound optimistic locking: a changed watched key always aborts EXEC.
 
@@ -252,7 +255,7 @@ theorem sigInv_reachable {H : Table} (hH : TableSignals H) (st : MState) (hp : s
     QueuesSignal (run H { store := st } cs).1 ∧ (run H { store := st } cs).1.store.pebble = true :=
   SigInv.run hH cs ⟨QueuesSignal.init st, hp⟩
 
-/-! ### the server's complete dispatch: `fullTable = Driver.lookup [table1, table2, table3]`
+/-! ### the server's complete dispatch: `fullTable = Driver.lookup [table1, table2, table3, table4]`
 
   (connection / keyspace / strings; lists / hashes / sets; sorted sets and the *SCAN commands —
   `Main.tables`).  FULL STATEMENT `TableSignals fullTable` is FALSE / not fully proved; the exact
@@ -267,8 +270,13 @@ theorem sigInv_reachable {H : Table} (hH : TableSignals H) (st : MState) (hp : s
     commands are excluded from the table-level theorem and covered by `table3_tells_partial` below
     (store-relative region).
   * NOT PROVED: SCAN with a TYPE option (it loads cold records; needs an index invariant).
-  * everything else — all other 100-odd commands and option combinations of the three tables —
-    signals every key it changes: `fullSafe_signals`.
+  * NOT PROVED: SAVE (`Store.flush` rewrites the persistence bookkeeping of every record; that it leaves the
+    logical content alone is C11 / C12's subject, not shown again here).
+  * (GEOADD with NX / XX as argument 1 would build a closure around `GeoAddNX`, which creates the key without
+    signalling - FINDINGS.md D-8; `geoadd_option_words_never_run` shows the handler never gets that far, so
+    nothing is excluded there.)
+  * everything else — all other 110-odd commands and option combinations of the four tables, GEOADD and the
+    GEO reads included (`table4_signals`) — signals every key it changes: `fullSafe_signals`.
 -/
 
 /-- the complete dispatch minus the excluded region satisfies the well-formedness predicate -/
@@ -806,5 +814,60 @@ end gate
    the model are given as `_partial` + `_finding`: TableSignals (DECRBY -2^63), writers_signal_addInt,
    writers_signal_setRange.  Scope limit (stated hypothesis): the writers table and
    `watch_sound_changed` are for the Pebble backend (`hypothesis_pebble_is_necessary`). -/
+
+/-! ### the commands that joined the model with `Handler4.table4` (work package D) -/
+
+section table4
+open NodisVerif.Proofs.C08Step.T4 NodisVerif.Proofs.GeoReads
+
+/-- CLIENT, CONFIG, INFO, QUIT, GEOADD, GEOHASH, GEOPOS, GEODIST, GEORADIUS, GEORADIUSBYMEMBER: every closure
+    signals every key whose logical content it changes -/
+theorem table4_signals : TableSignals table4Safe := table4Safe_signals
+
+/-- GEOADD (the API function behind the handler): whatever key's logical content changes is signalled -
+    which is its own key, signalled once after the last `ZAdd` (this was a defect: `GeoAdd` changed a
+    sorted set without telling the watchers; found by the regenerated `writers` table, repaired) -/
+theorem geoadd_signals_its_key (s : MState) (hp : s.pebble = true) (now : Int) (key : Bytes)
+    (items : List (Bytes × F64)) (k : Bytes) :
+    NodisVerif.Proofs.C09Writers.changed s (Handler4.geoAdd s now key items).1 k →
+      k ∈ (Handler4.geoAdd s now key items).1.signalled :=
+  (frame_geoAdd s hp now key items).sound k
+
+/-- `GEOADD key NX …` / `GEOADD key XX …` (the option word as argument 1) never reaches `execCommand`: the word
+    stays in front of the items and is parsed as a longitude (FINDINGS.md D-7). So the closures around `GeoAddNX`
+    / `GeoAddXX` - the former creates its key without signalling - are never built -/
+theorem geoadd_option_words_never_run (args : List Bytes) (h : opt args "NX" = 1 ∨ opt args "XX" = 1) (b : Body) :
+    Handler4.geoAddH args ≠ .exec b := NodisVerif.Proofs.GeoAddOpt.geoAddH_opt_not_exec args h b
+
+example : opt [[103], Bytes.ofString "nx", [49], [50], [109]] "NX" = 1 := by decide +kernel
+
+/-- the read commands of the GEO family never write: started as `runBody` starts every closure, they signal
+    nothing, emit no change record, and leave every record logically as it was -/
+theorem geo_reads_never_write (name : String) (args : List Bytes) (b : Body) (hn : name ∈ geoReads)
+    (h : Handler4.table4 name args = some (.exec b)) (st : MState) (now : Int) (ch : Choice) (h0 : st.signalled = []) :
+    (b st now ch).store.signalled = [] ∧ (b st now ch).store.feed = st.feed ∧
+    ∀ k, NodisVerif.Proofs.C09Writers.unchanged (Store.getMeta st k) (Store.getMeta (b st now ch).store k) :=
+  readOnly_effect (geoReads_readOnly name args b hn h) st now ch h0
+
+/-- PARTIAL (SAVE is not in `table4Safe`): on a store that satisfies C11's store invariant, SAVE - the closure is
+    `Store.flush` - changes no key's logical content (`Spec.Persist.lookup`: value and deadline of every name, now and
+    at every later time), so there is nothing it would have to signal.  What is missing for `SignalsChanges` proper:
+    that predicate quantifies over ALL Pebble stores (no invariant), and its `unchanged` is about the index record
+    (identity, liveness bit), which `flush` rewrites from the copy it read at the start of the pass -/
+theorem save_keeps_logical_partial (st : MState) (t now : Int) (ch : Choice)
+    (h : NodisVerif.Proofs.C11.StoreInvX st none t) (ht : t ≤ now) (b : Body) (hb : Handler4.save = .exec b) :
+    ∀ t', now ≤ t' → ∀ k, NodisVerif.Spec.Persist.lookup (b st now ch).store t' k = NodisVerif.Spec.Persist.lookup st t' k := by
+  cases hb
+  exact (NodisVerif.Proofs.C11.flush_spec h ht).1.look
+
+/-- hypotheses satisfiable (the empty Pebble store; C11 shows the invariant is kept by every command) -/
+example : NodisVerif.Proofs.C11.StoreInvX (NodisVerif.Spec.Persist.empty true) none 0 ∧ ∃ b, Handler4.save = .exec b :=
+  ⟨NodisVerif.Proofs.C11.empty_inv true 0, _, rfl⟩
+
+/-- hypotheses satisfiable: GEOPOS on a store holding a geo key -/
+example : ∃ b, Handler4.table4 "GEOPOS" [[103], [109]] = some (.exec b) := ⟨_, rfl⟩
+example : "GEOPOS" ∈ geoReads := by decide
+
+end table4
 
 end NodisVerif.C09
